@@ -808,6 +808,18 @@ func (c *checker) wireJobs(jobs *[]job) {
 					return tls.Marshal(*ct.CreateX509MerkleTreeLeaf(ct.ASN1Cert{Data: v.Entry.Cert}, v.Entry.Timestamp))
 				})
 			}
+			if isReal(v.Entry.SignedEntry) && v.Entry.EntryType == ref.X509Entry && len(v.Entry.Extensions) == 0 {
+				for _, et := range []ct.LogEntryType{ct.X509LogEntryType, 2, 0x8000} {
+					et := et
+					c.helper(fmt.Sprintf("MerkleTreeLeafFromRawChain(etype=%d)+Marshal", et), "MerkleTreeLeaf", vid, encd, valid && et == ct.X509LogEntryType, func() ([]byte, error) {
+						l, err := ct.MerkleTreeLeafFromRawChain([]ct.ASN1Cert{{Data: realCert}, {Data: realCert}}, et, v.Entry.Timestamp)
+						if err != nil {
+							return nil, err
+						}
+						return tls.Marshal(*l)
+					})
+				}
+			}
 			if valid && len(encd) < 1<<17 {
 				// BuildLogLeaf: leaf value, extra data and identity hash of what goes to the log backend
 				for _, isPre := range []bool{false, true} {
